@@ -553,7 +553,7 @@ fn gen_case(rng: &mut Rng) -> Case
 			// a register slot naming no register
 			if let Some(i) = (0..kinds.len()).find(|&i| matches!(vals[i], V::R(_)) && kinds[i] == K::R)
 			{
-				texts[i] = (*rng.pick(&["R16", "R", "SPP", "X0", "R01", "r1x"])).to_owned();
+				texts[i] = (*rng.pick(&["R16", "R", "SPP", "X0", "R01", "r1x", "R0000", "STACK", "programcounter"])).to_owned();
 				valid = false;
 				hist.push("shape: no such register");
 			}
@@ -686,6 +686,19 @@ plus real encode, compared on diagnostics (full text) and output bytes. non-triv
 
 	// fixed table first: the register / mnemonic name tables of the model against the real `is_register`
 	names_audit(cx);
+
+	// operand shapes the random generator does not write (found with tools/coverage.sh): names too long for the register tables,
+	// list items that are no names, address expressions of other forms; all must be diagnosed and leave no encoding
+	let fixed: Vec<(String, Option<Instruction>, String)> = [
+		"MOVS R0000, 1;", "MOVS R0, R1R1R;", "ADCS R0, R1234;", "MOV programcounter, R0;", "BX linkregister;", "SXTB R0, R1234567;",
+		"PUSH {R0, longname9};", "PUSH {1};", "PUSH {R0, 1};", "POP {\"R0\"};", "POP {R0, [R1]};", "LDM R0, {R1, R2 + 0};", "STM R0, {{R1}};", "POP {-R0};",
+		"MRS R0, 5;", "MRS R0, \"PRIMASK\";", "MRS R0, NOSUCHSYSTEMREGISTER;", "MRS R0, PRIMASKS1;", "MSR toolongname, R0;", "MSR 16, R0;",
+		"LDR R0, [R1 + R2 + R3];", "LDR R0, [R1 + R2 + 4];", "LDR R0, [R1 + 4 + R2];", "STR R0, [R1 - 4];", "STR R0, [R1 * 4];", "LDRB R0, [R1 + 0x100000000];",
+		"LDRH R0, [4 - R1];", "LDR R0, [-R1];", "LDR R0, [longname9 + 4];", "LDR R0, [R1 + longname9];", "LDR R0, [[R1]];", "LDR R0, [R1 + [R2]];",
+		"LDRSB R0, [R1 + 4];", "LDRSH R0, [R1];", "STRB R0, [R1 + \"4\"];",
+	].iter().flat_map(|t| [0x2000_0000u32, 0xFFFF_FFFE].into_iter().map(move |a| {let text = format!(".addr 0x{a:X}; {t}"); (format!("invalid#{text}"), None, text)})).collect();
+	cx.report.hit_n("fixed invalid operand shapes", fixed.len() as u64);
+	run_batch(cx, &fixed, dirs);
 
 	let total = if cx.thorough() {5_000_000} else {200_000};
 	let mut done = 0;
